@@ -229,4 +229,91 @@ example : parseInt [0x2D, 0x31, 0x32, 0x38] 10 8 = .ok (-128) := by rfl
 example : parseInt [0x31, 0x32, 0x38] 10 8 = .error .range := by rfl
 example : parseUint [0x66, 0x46] 16 8 = .ok 255 := by rfl
 
+
+/-! ### Formatting and parsing are inverse (every base, every size) -/
+
+
+theorem digitVal_digitChar (d : Nat) (h : d < 36) : digitVal (digitChar d) = some d := by
+  unfold digitChar digitVal lower
+  by_cases h1 : d < 10
+  · have a : (decide (0x30 ≤ 0x30 + d) && decide (0x30 + d ≤ 0x39)) = true := by simp; omega
+    simp only [h1, if_true, a]; congr 1; omega
+  · simp only [h1, if_false]
+    have a : (decide (0x30 ≤ 0x61 + (d - 10)) && decide (0x61 + (d - 10) ≤ 0x39)) = false := by simp; omega
+    have b : (decide (0x41 ≤ 0x61 + (d - 10)) && decide (0x61 + (d - 10) ≤ 0x5A)) = false := by simp; omega
+    simp only [a, b, Bool.false_eq_true, if_false]
+    have c : (decide (0x61 ≤ 0x61 + (d - 10)) && decide (0x61 + (d - 10) ≤ 0x7A)) = true := by simp; omega
+    simp only [c, if_true]; congr 1; omega
+
+theorem horner_append (base acc : Nat) (s : Bytes) (c : Nat) :
+    horner base acc (s ++ [c]) = horner base acc s * base + (digitVal c).getD 0 := by
+  induction s generalizing acc with
+  | nil => simp [horner]
+  | cons x xs ih => simp only [List.cons_append, horner]; exact ih _
+
+/-- the digits `FormatUint` writes are digits of the base, and they denote the number -/
+theorem natToBase_spec (base : Nat) (hb : 2 ≤ base ∧ base ≤ 36) (n : Nat) :
+    natToBase base n ≠ [] ∧ allDigits base (natToBase base n) ∧ horner base 0 (natToBase base n) = n := by
+  induction n using Nat.strongRecOn with
+  | _ n ih =>
+    rw [natToBase]
+    have hnb : ¬ base < 2 := by omega
+    simp only [hnb, dite_false]
+    by_cases hlt : n < base
+    · simp only [hlt, dite_true]
+      refine ⟨by simp, ?_, ?_⟩
+      · intro c hc; simp at hc; subst hc
+        exact ⟨n, digitVal_digitChar n (by omega), hlt⟩
+      · simp [horner, digitVal_digitChar n (by omega)]
+    · simp only [hlt, dite_false]
+      have hdiv : n / base < n := Nat.div_lt_self (by omega) (by omega)
+      obtain ⟨h1, h2, h3⟩ := ih (n / base) hdiv
+      have hmod : n % base < base := Nat.mod_lt _ (by omega)
+      refine ⟨by simp, ?_, ?_⟩
+      · intro c hc
+        rcases List.mem_append.mp hc with hc | hc
+        · exact h2 c hc
+        · simp at hc; subst hc
+          exact ⟨n % base, digitVal_digitChar _ (by omega), hmod⟩
+      · rw [horner_append, h3, digitVal_digitChar _ (by omega)]
+        simp only [Option.getD_some]
+        exact Nat.div_add_mod' n base
+
+/-- **Formatting then parsing an unsigned number gives it back**, in every base 2..36 and for
+    every bit size the number fits in. -/
+theorem parseUint_format (base bits n : Nat) (hb : 2 ≤ base ∧ base ≤ 36) (hn : n < 2 ^ bits) :
+    parseUint (natToBase base n) (base : Int) bits = .ok n := by
+  obtain ⟨h1, h2, h3⟩ := natToBase_spec base hb n
+  exact (parseUint_spec _ base bits n hb).mpr ⟨h1, h2, h3, hn⟩
+
+/-- **Formatting then parsing a signed number gives it back**, in every base 2..36 and for every
+    bit size whose range contains it. -/
+theorem parseInt_format (base bits : Nat) (v : Int) (hb : 2 ≤ base ∧ base ≤ 36) (hbits : 1 ≤ bits)
+    (hlo : -(2 ^ (bits - 1) : Int) ≤ v) (hhi : v < 2 ^ (bits - 1)) :
+    parseInt (intToBase base v) (base : Int) bits = .ok v := by
+  obtain ⟨h1, h2, h3⟩ := natToBase_spec base hb v.natAbs
+  rw [parseInt_spec _ base bits v hb hbits]
+  unfold intToBase
+  by_cases hneg : v < 0
+  · simp only [hneg, if_true, splitSign]
+    refine ⟨h1, h2, ?_, hlo, hhi⟩
+    simp only [if_true, h3]
+    omega
+  · simp only [hneg, if_false]
+    -- the first digit is not a sign
+    have hsplit : splitSign (natToBase base v.natAbs) = (false, natToBase base v.natAbs) := by
+      cases hq : natToBase base v.natAbs with
+      | nil => exact absurd hq h1
+      | cons c t =>
+        have hc := h2 c (by rw [hq]; simp)
+        obtain ⟨d, hd, _⟩ := hc
+        unfold splitSign
+        split
+        · next h => simp at h; rw [h.1] at hd; simp [digitVal, lower] at hd
+        · next h => simp at h; rw [h.1] at hd; simp [digitVal, lower] at hd
+        · rfl
+    rw [hsplit]
+    refine ⟨h1, h2, ?_, hlo, hhi⟩
+    simp only [Bool.false_eq_true, if_false, h3]
+    omega
 end GoFlags.C11
